@@ -171,9 +171,28 @@ class Inliner:
         self.new_cconsts = {}   # (class, name) -> expression AST
 
     # ------------------------------------------------------------------ discovery
+    def restore_forms(self):
+        """`NAME = lambda a: e`  and  `def NAME(a): return e`  are the same definition: keep the form of the reference tree"""
+        body = self.tree.body
+        for i, n in enumerate(body):
+            if isinstance(n, ast.FunctionDef) and n.name in self.known_assigns and n.name not in self.known_funcs and not n.decorator_list:
+                b = _docless(list(n.body))
+                if len(b) == 1 and isinstance(b[0], ast.Return) and b[0].value is not None:
+                    new = ast.Assign(targets=[ast.Name(id=n.name, ctx=ast.Store())], value=ast.Lambda(args=n.args, body=b[0].value))
+                    body[i] = ast.copy_location(new, n)
+                    self.report.append('def %s read as the lambda it replaces' % n.name)
+            elif isinstance(n, ast.Assign) and len(n.targets) == 1 and isinstance(n.targets[0], ast.Name) \
+                    and isinstance(n.value, ast.Lambda) and n.targets[0].id in self.known_funcs and n.targets[0].id not in self.known_assigns:
+                f = ast.FunctionDef(name=n.targets[0].id, args=n.value.args, body=[ast.Return(value=n.value.body)], decorator_list=[],
+                                    returns=None, type_comment=None, type_params=[])
+                body[i] = ast.copy_location(f, n)
+                self.report.append('lambda %s read as the def it replaces' % f.name)
+        ast.fix_missing_locations(self.tree)
+
     def discover(self):
         if not self.active:
             return
+        self.restore_forms()
         body = self.tree.body
         mod_names = set()
         for n in body:
@@ -192,14 +211,14 @@ class Inliner:
                         if isinstance(x, ast.Name):
                             counts[x.id] = counts.get(x.id, 0) + 1
         for n in body:
-            if isinstance(n, ast.FunctionDef) and n.name not in self.known_funcs and not n.decorator_list:
+            if isinstance(n, ast.FunctionDef) and n.name not in self.known_funcs and n.name not in self.known_assigns and not n.decorator_list:
                 self.new_funcs[n.name] = n
             elif isinstance(n, ast.Assign) and len(n.targets) == 1 and isinstance(n.targets[0], ast.Name):
                 nm = n.targets[0].id
-                if nm not in self.known_assigns and nm != '__all__' and counts.get(nm) == 1 and not isinstance(n.value, ast.Lambda) \
+                if nm not in self.known_assigns and nm not in self.known_funcs and nm != '__all__' and counts.get(nm) == 1 and not isinstance(n.value, ast.Lambda) \
                         and self._static_expr(n.value, mod_names) and not self._mutated_global(nm):
                     self.new_consts[nm] = n.value
-                elif nm not in self.known_assigns and isinstance(n.value, ast.Lambda) and counts.get(nm) == 1:
+                elif nm not in self.known_assigns and nm not in self.known_funcs and isinstance(n.value, ast.Lambda) and counts.get(nm) == 1:
                     # NAME = lambda ...: a new helper written as a lambda
                     lam = n.value
                     f = ast.FunctionDef(name=nm, args=lam.args, body=[ast.Return(value=lam.body)], decorator_list=[], returns=None,
